@@ -3,6 +3,7 @@ package main
 
 import (
 	"fmt"
+	"net"
 	"runtime"
 	"sort"
 	"strings"
@@ -65,13 +66,20 @@ type scenario struct {
 	Waiters []int  `json:"waiter_codes"`
 	Late    []int  `json:"late_waiter_codes"`
 	Pokes   []int  `json:"poke_codes"`
+	// CloseAttempt: with the agent locked, Close is attempted (and refused) once the waiters are parked
+	CloseAttempt bool `json:"close_attempt_while_locked,omitempty"`
 }
 
 type rig struct {
 	ag     *wire.Agent
 	srv    yubiagent.YubiAgent
 	direct *shimagent.Server
+	// wedged: a request did not get its reply within the watchdog; the server may hold its locks for good
+	wedged bool
 }
+
+// wedgedOnce stops the run: goroutines stuck in a wedged server stay in the goroutine table.
+var wedgedOnce bool
 
 func newRig(direct bool) (*rig, error) {
 	g := &rig{ag: wire.New()}
@@ -96,11 +104,20 @@ func newRig(direct bool) (*rig, error) {
 }
 
 func (g *rig) close() {
-	if g.srv != nil {
-		g.srv.Close()
-	}
-	if g.direct != nil {
-		g.direct.Close()
+	done := make(chan struct{})
+	go func() {
+		defer close(done)
+		if g.srv != nil {
+			g.srv.Close()
+		}
+		if g.direct != nil {
+			g.direct.Close()
+		}
+	}()
+	select {
+	case <-done:
+	case <-time.After(5 * time.Second):
+		// Close waits for a lock that is never released: abandon the server
 	}
 	g.ag.Close()
 }
@@ -143,14 +160,22 @@ func (g *rig) startWaiter(code byte) (*waiter, error) {
 // poke sends a request whose first byte is code on a fresh connection and waits for its reply or the end of service.
 func (g *rig) poke(code byte) (panicked string) {
 	if g.direct != nil {
-		func() {
+		dd := make(chan string, 1)
+		go func() {
 			defer func() {
 				if p := recover(); p != nil {
-					panicked = fmt.Sprint(p)
+					dd <- fmt.Sprint(p)
+					return
 				}
+				dd <- ""
 			}()
 			g.direct.Broadcast(code)
 		}()
+		select {
+		case panicked = <-dd:
+		case <-time.After(ev.OpTimeout()):
+			g.wedged, wedgedOnce = true, true
+		}
 		return
 	}
 	p1, p2, err := wire.SocketPair()
@@ -175,11 +200,16 @@ func (g *rig) poke(code byte) (panicked string) {
 	}
 	p1.Write(wire.Frame(body))
 	p1.SetReadDeadline(time.Now().Add(ev.OpTimeout()))
-	wire.ReadFrame(p1)
+	_, rerr := wire.ReadFrame(p1)
 	p1.Close()
+	if ne, ok := rerr.(net.Error); ok && ne.Timeout() {
+		g.wedged, wedgedOnce = true, true
+		return
+	}
 	select {
 	case panicked = <-sd:
 	case <-time.After(ev.OpTimeout()):
+		g.wedged, wedgedOnce = true, true
 	}
 	return
 }
@@ -222,6 +252,14 @@ func run(r *ev.Run, c *ev.Case, sc scenario) {
 	var ws []*waiter
 	defer func() {
 		// release everything that is still parked so that the next scenario starts clean
+		if g.wedged {
+			for _, w := range ws {
+				if w.conn != nil {
+					w.conn.Close()
+				}
+			}
+			return
+		}
 		seen := map[byte]bool{}
 		for _, w := range ws {
 			if !w.poll() && w.code < 40 && !seen[w.code] {
@@ -309,6 +347,42 @@ func run(r *ev.Run, c *ev.Case, sc scenario) {
 			return
 		}
 	}
+	if sc.Locked && sc.CloseAttempt {
+		// closing a locked agent is refused and the agent lives on: that is not a request with anybody's code
+		var cerr error
+		cd := make(chan error, 1)
+		go func() {
+			if g.direct != nil {
+				cd <- g.direct.Close()
+			} else {
+				cd <- g.srv.Close()
+			}
+		}()
+		select {
+		case cerr = <-cd:
+		case <-time.After(ev.OpTimeout()):
+			g.wedged, wedgedOnce = true, true
+			r.Violation(c, "close-never-returns-while-clients-wait", fmt.Sprintf("%d goroutines parked", parked()), sc)
+			return
+		}
+		if cerr == nil {
+			// the agent let itself be closed: nothing further to observe on it
+			r.Count("close of a locked agent succeeded (scenario ends)", 1)
+			return
+		}
+		time.Sleep(time.Millisecond)
+		if n := parked(); n != expectParked {
+			r.Violation(c, "waiters-released-by-refused-close", fmt.Sprintf("Close was refused (%v) and the agent lives on, but only %d of %d waiters are still parked", cerr, n, expectParked), sc)
+			return
+		}
+		for _, w := range ws {
+			if w.code < 40 && !w.returned && w.poll() {
+				r.Violation(c, "waiters-released-by-refused-close", fmt.Sprintf("Close was refused (%v); the waiter on code %d returned (err=%v)", cerr, w.code, w.err), sc)
+				return
+			}
+		}
+		r.Count("refused close attempts that released nobody", 1)
+	}
 	late := append([]int{}, sc.Late...)
 	for pi, p := range sc.Pokes {
 		// a late waiter registers between two pokes
@@ -322,6 +396,16 @@ func run(r *ev.Run, c *ev.Case, sc scenario) {
 		}
 		if pn := g.poke(byte(p)); pn != "" {
 			r.Violation(c, fmt.Sprintf("request-crashes-serving:code=%d", p), pn, sc)
+			return
+		}
+		if g.wedged {
+			stillWaiting := 0
+			for _, w := range ws {
+				if !w.poll() && int(w.code) == p {
+					stillWaiting++
+				}
+			}
+			r.Violation(c, fmt.Sprintf("request-never-completes-while-clients-wait:code=%d", p), fmt.Sprintf("a request with code %d got no reply within the watchdog while %d goroutines are parked (%d of them waiting for this very code and not released)", p, parked(), stillWaiting), sc)
 			return
 		}
 		released := 0
@@ -389,7 +473,7 @@ func main() {
 		one := func(fam string, sc scenario) {
 			c := r.Case(fam, idx)
 			idx++
-			if c == nil || r.NumViolations() > 8 {
+			if c == nil || r.NumViolations() > 8 || wedgedOnce {
 				return
 			}
 			r.Eval(1)
@@ -414,7 +498,7 @@ func main() {
 		for si, set := range sets {
 			for _, pm := range perms {
 				for _, mode := range []string{"served", "direct"} {
-					one("perm", scenario{Mode: mode, Locked: (si+pm[0])%3 == 0, Waiters: []int{set[0], set[1], set[1], set[2]}, Pokes: []int{set[pm[0]], set[pm[1]], set[pm[2]]}})
+					one("perm", scenario{Mode: mode, Locked: (si+pm[0])%3 == 0, CloseAttempt: (si+pm[1])%2 == 0, Waiters: []int{set[0], set[1], set[1], set[2]}, Pokes: []int{set[pm[0]], set[pm[1]], set[pm[2]]}})
 				}
 			}
 			_ = si
@@ -434,6 +518,7 @@ func main() {
 				}
 			}
 			sc := scenario{Mode: []string{"served", "direct"}[rng.Intn(2)], Locked: rng.Intn(4) == 0}
+			sc.CloseAttempt = sc.Locked && rng.Intn(2) == 0
 			for k := 1 + rng.Intn(8); k > 0; k-- {
 				sc.Waiters = append(sc.Waiters, codes[rng.Intn(ncodes)])
 			}
